@@ -539,11 +539,24 @@ func c14GenField(rng *rand.Rand, c *Case, forWhere bool) []string {
 		wrap = fmt.Sprintf("colminus:%d", col)
 		calls = []string{"lag", strconv.Itoa(col), off, "-", "-"}
 		c.Stat = append(c.Stat, "wrap-col-minus-lag")
-	default: // acc_max(v) - acc_min(v)
+	default:
 		wrap, n = "selfdiff", 2
 		col := strconv.Itoa(rng.Intn(2))
-		calls = []string{"acc", "max", col, "-", "-", "acc", "min", col, "-", "-"}
-		c.Stat = append(c.Stat, "wrap-max-minus-min")
+		if rng.Intn(2) == 0 { // acc_max(v) - acc_min(v)
+			calls = []string{"acc", "max", col, "-", "-", "acc", "min", col, "-", "-"}
+			c.Stat = append(c.Stat, "wrap-max-minus-min")
+		} else {
+			// two different calls, the first of which is NULL on some rows (lag before its offset is reached, NULL
+			// values): the second one's state must advance on those rows all the same
+			col2 := strconv.Itoa(rng.Intn(2))
+			kind := []string{"sum", "count", "avg", "min", "max"}[rng.Intn(5)]
+			off := []string{"-", "2"}[rng.Intn(2)]
+			calls = []string{"lag", col, off, "-", "-", "acc", kind, col2, "-", "-"}
+			if rng.Intn(3) == 0 {
+				calls = []string{"acc", kind, col2, "-", "-", "lag", col, off, "-", "-"}
+			}
+			c.Stat = append(c.Stat, "wrap-two-different-calls")
+		}
 	}
 	return append([]string{wrap, part, when, strconv.Itoa(n)}, calls...)
 }
@@ -644,12 +657,17 @@ func (c14) Gen(rng *rand.Rand, tier string, idx int) Case {
 	last, last2 := map[int][2]string{}, map[int][2]string{}
 	numOnly := [2]bool{}
 	for _, l := range c.Cfg {
-		if l[0] == "field" && l[1] != "none" { // wrapper: its calls' argument column must stay numeric/NULL
-			col, _ := strconv.Atoi(l[6])
-			if l[5] == "acc" {
-				col, _ = strconv.Atoi(l[7])
+		if l[0] == "field" && l[1] != "none" { // wrapper: its calls' argument columns must stay numeric/NULL
+			for at := 5; at+4 < len(l)+0 && at < 5+5*2; at += 5 {
+				if at >= len(l) {
+					break
+				}
+				col, _ := strconv.Atoi(l[at+1])
+				if l[at] == "acc" {
+					col, _ = strconv.Atoi(l[at+2])
+				}
+				numOnly[col] = true
 			}
-			numOnly[col] = true
 		}
 	}
 	for i := 1; i <= nrows; i++ {
